@@ -59,6 +59,12 @@ type cbP struct {
 
 func strp(s string) *string { return &s }
 
+// cbBindings: stored-binding labels -> the binding string the stored record carries (the record is the integrator's: any string).
+var cbBindings = map[string]string{"": msg.BindPost, "redirect": msg.BindRedirect, "artifact": msg.BindArtifact, "none": "",
+	"post-padded": " " + msg.BindPost + " ", "post-nl": "\n\t" + msg.BindPost + "\n", "redirect-padded": msg.BindRedirect + " ", "post-upper": strings.ToUpper(msg.BindPost),
+	"redirect-lower": strings.ToLower(msg.BindRedirect), "simplesign": msg.BindSimpleSign, "soap": msg.BindSOAP, "paos": msg.BindPAOS, "junk": "urn:junk:binding", "post-suffix": msg.BindPost + "-SimpleSign2",
+	"short-post": "HTTP-POST", "short-redirect": "HTTP-Redirect"}
+
 type cbTruth struct {
 	Cfg       world.Config
 	Host      string
@@ -134,7 +140,10 @@ func cbBuild(p cbP) (*world.World, *cbTruth) {
 		u = &u2
 	}
 	t := &cbTruth{Cfg: cfg, Host: host, Entity: a.EntityID, User: u}
-	t.Binding = map[string]string{"": msg.BindPost, "redirect": msg.BindRedirect, "artifact": msg.BindArtifact, "none": ""}[p.Binding]
+	var known bool
+	if t.Binding, known = cbBindings[p.Binding]; !known {
+		panic("cbBuild: Binding " + p.Binding)
+	}
 	t.ACS = "https://sp-a.example/acs/post"
 	if p.Binding == "redirect" {
 		t.ACS = "https://sp-a.example/acs/redirect"
